@@ -97,7 +97,8 @@ class _SystemRandom:
 
 
 def _uniform(a, b):
-    return b if CTX.uniform_hi else a
+    hi = getattr(CTX.ep, 'uniform_hi', None) if CTX.ep is not None else None      # per endpoint, if the harness says so
+    return b if (CTX.uniform_hi if hi is None else hi) else a
 
 
 def _randint(a, b):
